@@ -151,11 +151,38 @@ def checks(labels, C, seed):
     return out
 
 
+def big_checks(seed):
+    """larger layouts for the order-sensitive wrappers (stable ties need > 16 samples; class filters need long class lists)"""
+    from kappadata.wrappers.dataset_wrappers.sort_by_class_wrapper import SortByClassWrapper
+    from kappadata.wrappers.dataset_wrappers.class_filter_wrapper import ClassFilterWrapper
+    out = []
+    rng = random.Random(seed)
+    labels = [rng.randrange(3) for _ in range(40)]
+    got = idx(SortByClassWrapper(_ds(labels, 3)))
+    if got != sorted(range(40), key=lambda i: labels[i]):
+        out.append({"what": "sort by class is not the stable sort by class", "wrapper": "SortByClass", "n": 40})
+    big = [rng.randrange(1000) for _ in range(60)]
+    big += big[:10]
+    valid = sorted(set(rng.sample(range(1000), 20)) | {big[0], big[3]})
+    got = idx(ClassFilterWrapper(_ds(big, 1000), valid_classes=valid))
+    if got != [i for i in range(len(big)) if big[i] in valid]:
+        out.append({"what": "class filter does not keep precisely the allowed classes in original order", "wrapper": "ClassFilter",
+                    "kwargs": {"valid_classes": "20+ of 1000"}})
+    got = idx(ClassFilterWrapper(_ds(big, 1000), invalid_classes=valid))
+    if got != [i for i in range(len(big)) if big[i] not in valid]:
+        out.append({"what": "class filter (invalid) does not drop precisely the given classes", "wrapper": "ClassFilter"})
+    return out
+
+
 LAYOUTS = [([0], 1), ([0, 1], 2), ([0, 0, 2], 3), ([1, 0, 1, 2, 2, 0, 1], 3), ([0, 0, 0, 1], 2), ([2, 2, 1, 1, 0, 0, 3], 5), ([0, -1, 1, 1, -1], 2)]
 
 
 def search(limit, seed):
-    n = 0
+    n = 1
+    r = big_checks(seed)
+    if r:
+        r[0]["input"] = {"layout": "40 samples / 3 classes; 70 samples / 1000 classes", "seed": seed}
+        return r[0], n
     for labels, C in LAYOUTS[:limit]:
         for s in (seed, seed + 3):
             n += 1
